@@ -659,6 +659,15 @@ def r5b_human_sizes(ctx):
                     continue
                 pairs = list(zip(a.targets[0].elts, a.value.elts)) if isinstance(a.targets[0], ast.Tuple) and isinstance(a.value, ast.Tuple) and len(a.targets[0].elts) == len(a.value.elts) else [(a.targets[0], a.value)]
                 for tg, v in pairs:
+                    if isinstance(v, ast.Name) and isinstance(consts.get(v.id), ast.Call):
+                        # a named (divisor, suffix) record bound once at module level
+                        rc = consts[v.id]
+                        parts_ = list(rc.args) + [k.value for k in rc.keywords]
+                        nums_ = [_fold(x, consts) for x in parts_]
+                        strs_ = [x.value for x in parts_ if isinstance(x, ast.Constant) and isinstance(x.value, str) and x.value in order]
+                        if len(strs_) == 1 and any(x is not None for x in nums_):
+                            unit, num, first = strs_[0], next(x for x in nums_ if x is not None), first or a
+                        continue
                     if isinstance(v, ast.Constant) and isinstance(v.value, str) and v.value in order:
                         unit, first = v.value, first or a
                     elif _fold(v, consts) is not None:
@@ -690,6 +699,57 @@ def r5b_human_sizes(ctx):
         lp = loops[0]
         it = lp.iter
         trim = 0
+        tbl = consts.get(it.id) if isinstance(it, ast.Name) else it
+        if isinstance(lp.target, ast.Tuple) and isinstance(tbl, (ast.Tuple, ast.List)) and tbl.elts and all(isinstance(r, (ast.Tuple, ast.List)) and len(r.elts) == len(lp.target.elts) for r in tbl.elts):
+            # table form: rows of (upper bound, divisor, unit); the loop stops at the first row whose bound exceeds the value
+            tnames = [t.id if isinstance(t, ast.Name) else None for t in lp.target.elts]
+            brk = [st for st in lp.body if isinstance(st, ast.If) and len(st.body) == 1 and isinstance(st.body[0], ast.Break) and isinstance(st.test, ast.Compare) and len(st.test.ops) == 1 and isinstance(st.test.ops[0], ast.Lt) and isinstance(st.test.left, ast.Name) and st.test.left.id == val and isinstance(st.test.comparators[0], ast.Name) and st.test.comparators[0].id in tnames]
+            if len(lp.body) != 1 or len(brk) != 1:
+                raise AnalysisError('C15.R5: the unit table loop of utils.bytes_to_human is in a form this rule does not model')
+            bi = tnames.index(brk[0].test.comparators[0].id)
+            rows = []
+            for r in tbl.elts:
+                nums = [(_i, _fold(x, consts)) for _i, x in enumerate(r.elts)]
+                us = [x.value for x in r.elts if isinstance(x, ast.Constant) and isinstance(x.value, str)]
+                dv = [v for _i, v in nums if _i != bi and v is not None]
+                if len(us) != 1 or len(dv) != 1 or nums[bi][1] is None:
+                    raise AnalysisError('C15.R5: a row of the unit table of utils.bytes_to_human is not (bound, divisor, unit)')
+                rows.append((nums[bi][1], dv[0], us[0], r))
+            for bound, dv, u, r in rows:
+                npairs += 1
+                if u not in order or dv != 1000 ** order.index(u):
+                    problems.append((lp, f'unit {u!r} is paired with the divisor {dv}'))
+                elif bound != dv * 1000:
+                    problems.append((lp, f'values below {bound} are shown in {u!r} (divisor {dv})'))
+            flat_n = [_fold(st.value, consts) for st in lp.orelse if isinstance(st, ast.Assign) and not isinstance(st.value, (ast.Tuple, ast.List, ast.Name))]
+            flat_u = [st.value.value for st in lp.orelse if isinstance(st, ast.Assign) and isinstance(st.value, ast.Constant) and isinstance(st.value.value, str)]
+            flat_n = [x for x in flat_n if x is not None]
+            if lp.orelse and len(flat_n) == 1 and len(flat_u) == 1 and all(isinstance(st, ast.Assign) for st in lp.orelse):
+                npairs += 1
+                if flat_u[0] not in order or flat_n[0] != 1000 ** order.index(flat_u[0]):
+                    problems.append((lp.orelse[0], f'unit {flat_u[0]!r} is paired with the divisor {flat_n[0]}'))
+            else:
+              for st in lp.orelse:
+                v = st.value if isinstance(st, ast.Assign) else None
+                v = consts.get(v.id) if isinstance(v, ast.Name) else v
+                if isinstance(v, (ast.Tuple, ast.List)):
+                  nums = [x for x in (_fold(e_, consts) for e_ in v.elts) if x is not None]
+                  us = [e_.value for e_ in v.elts if isinstance(e_, ast.Constant) and isinstance(e_.value, str)]
+                  if len(nums) == 1 and len(us) == 1:
+                      npairs += 1
+                      if us[0] not in order or nums[0] != 1000 ** order.index(us[0]):
+                          problems.append((st, f'unit {us[0]!r} is paired with the divisor {nums[0]}'))
+                      continue
+                raise AnalysisError('C15.R5: the fallback of the unit table loop of utils.bytes_to_human is in a form this rule does not model')
+            ctx.check(
+                not problems,
+                'C15.R5',
+                key,
+                loc(f, problems[0][0] if problems else f.node),
+                f'utils.bytes_to_human: each of the {npairs} unit choices prints the byte count divided by that unit\'s own power of 1000',
+                f'utils.bytes_to_human: {problems[0][1] if problems else ""}: sizes in the listings are off by a factor of 1000 in that range',
+            )
+            return
         if isinstance(it, ast.Subscript) and isinstance(it.slice, ast.Slice) and it.slice.lower is None and it.slice.step is None and isinstance(it.slice.upper, ast.UnaryOp) and isinstance(it.slice.upper.op, ast.USub) and isinstance(it.slice.upper.operand, ast.Constant):
             trim = it.slice.upper.operand.value
             it = it.value
